@@ -210,6 +210,39 @@ theorem polygons_intersection_never_panics (order : List Nat) (poly1 poly2 : Arr
     | infiniteLoop => simp
     | unreachable => exact absurd hr hne
 
+/-! ## the seeded variant (`break` for `continue`) is separated from the code by `components_all_visited` -/
+
+/-- the inner `for inter in inters` of the **seeded variant**: `break` (leave the row) at the first visited intersection -/
+def innerLoopBreak (poly1 poly2 : Array (V2 K)) (eps : K) (I : List (IPoint K)) :
+    List (IPoint K) → List Nat × List (Emit K) → (List Nat × List (Emit K)) × Option WalkEnd
+  | [], s => (s, none)
+  | ip :: rest, (vis, tr) =>
+    if vis.contains ip.id then ((vis, tr), none) else
+    let p := startPoly poly1 poly2 eps ip
+    let r := walk I poly1.size poly2.size (poly1.size * poly2.size + 1) ⟨p, ip.edge p, .onInter ip.id, vis, tr⟩
+    match r.2 with
+    | .closed => innerLoopBreak poly1 poly2 eps I rest (r.1.visited, r.1.trace)
+    | e => ((r.1.visited, r.1.trace), some e)
+
+/-- the outer `for inters in intersections[0].values()` of the seeded variant -/
+def outerLoopBreak (poly1 poly2 : Array (V2 K)) (eps : K) (I : List (IPoint K)) :
+    List (List (IPoint K)) → List Nat × List (Emit K) → (List Nat × List (Emit K)) × Option WalkEnd
+  | [], s => (s, none)
+  | row :: rows, s =>
+    match innerLoopBreak poly1 poly2 eps I row s with
+    | (s', none) => outerLoopBreak poly1 poly2 eps I rows s'
+    | r => r
+set_option maxRecDepth 100000 in
+/-- **the seeded change is refuted by the theorem's clause**: with `break` for `continue`, on the slab / staple pair the
+walk ends normally but two of the four intersection points are never emitted (one of the two components is lost) —
+`components_all_visited` is exactly the statement that separates the code from the seeded variant. -/
+theorem seeded_break_variant_loses_a_component :
+    let I := intersections exSlab exStaple (defaultCollinearityEps : Rat)
+    let r := outerLoopBreak exSlab exStaple (defaultCollinearityEps : Rat) I ((List.range exSlab.size).map (onEdge I 0)) ([], [])
+    r.2.isNone = true ∧ (I.filter fun ip => cntInter ip.id r.1.2 == 0).length = 2 ∧
+    (I.filter fun ip => cntInter ip.id (polygonsIntersection exSlab exStaple).trace == 1).length = 4 := by
+  decide +kernel
+
 /-! ## no boundary intersection: the two containment fall-backs -/
 
 private theorem onEdge_nil (p e : Nat) : onEdge ([] : List (IPoint K)) p e = [] := by
